@@ -6,10 +6,21 @@ namespace BVM
 
 /-- inside a tracing section: stores and callback entries happen under flag = 1 -/
 def PSec : Ev → Prop
-  | .store _ _ f _ => f = true
   | .cb _ _ f _ => f = true
-  | .ret _ _ _ => False          -- only `stepOp` logs the return of a public API call
-  | _ => True
+  | .cbExit _ _ => True
+  | .store _ _ f _ => f = true
+  | .deliver _ _ _ => True
+  | .clockRead _ => True
+  | .assertFail => True
+  | .oob => True
+  | .ret _ _ _ => False
+  | .tsWrite _ _ => True
+  | .traceCall _ _ => True
+  | .recDone _ _ _ => True
+  | .discard _ => True
+  | .fullAnswer _ => True
+  | .opened _ => True
+  | .closed _ _ _ => True
 
 /-- `s'` extends `s` by in-section events and the flag is up in `s'` -/
 def Sec (s s' : St) : Prop := Ext PSec s s' ∧ s'.c.inTracingSection = true
@@ -46,7 +57,7 @@ theorem cbFull_sec (s : St) (h : s.c.inTracingSection = true) : Sec s (cbFull s)
   simp only
   generalize cbEnter .full s = s1 at h1
   refine Sec.trans h1 ?_
-  exact Sec.trans (Sec.upd (s' := s1.setPlat _) rfl h1.2) (Sec.ev (.cbExit _ _) h1.2 trivial)
+  exact Sec.trans (Sec.upd (s' := s1.setPlat _) rfl h1.2) (Sec.trans (Sec.ev (.fullAnswer _) h1.2 trivial) (Sec.ev (.cbExit _ _) h1.2 trivial))
 
 theorem installSer_sec (r : SerSt) (s : St) (h : s.c.inTracingSection = true) : Sec s (installSer r s) := by
   unfold installSer
@@ -236,7 +247,7 @@ theorem deliverAndSwap_sec (wasOpen : Bool) (n : Nat) (s : St) (h : s.c.inTracin
   split
   · exact Sec.refl h
   · simp only
-    have h1 : Sec s (s.ev (.deliver s.buf wasOpen)) := Sec.ev (.deliver _ _) h trivial
+    have h1 : Sec s (s.ev (.deliver s.buf wasOpen s.c.packetIsOpen)) := Sec.ev (.deliver _ _ _) h trivial
     refine Sec.trans h1 ?_
     split
     · refine Sec.trans (Sec.upd (setBuf_log _ _) (by rw [setBuf_flag]; exact h1.2)) (Sec.ev (.cbExit _ _) ?_ trivial)
@@ -311,9 +322,21 @@ theorem commit_sec (cfg : Cfg) (d : DST) (s : St) (h : s.c.inTracingSection = tr
 
 /-- stores happen under flag = 1 (what an asynchronous observer relies on) -/
 def PStore : Ev → Prop
+  | .cb _ _ _ _ => True
+  | .cbExit _ _ => True
   | .store _ _ f _ => f = true
+  | .deliver _ _ _ => True
+  | .clockRead _ => True
+  | .assertFail => True
+  | .oob => True
   | .ret _ _ _ => False
-  | _ => True
+  | .tsWrite _ _ => True
+  | .traceCall _ _ => True
+  | .recDone _ _ _ => True
+  | .discard _ => True
+  | .fullAnswer _ => True
+  | .opened _ => True
+  | .closed _ _ _ => True
 
 theorem PSec.toStore (e : Ev) (h : PSec e) : PStore e := by
   cases e <;> first | exact h | trivial
@@ -416,9 +439,9 @@ theorem deliverAndSwap_top (wasOpen : Bool) (n : Nat) (s : St)
   · have hf : s.halted = false := by simpa using hh
     simp only [hf, Bool.false_eq_true, if_false]
     split
-    · refine ⟨(Ext.ev s (.deliver _ _) trivial).trans ((Ext.of_log_eq (setBuf_log _ _)).trans (Ext.ev _ (.cbExit _ _) trivial)), ?_⟩
+    · refine ⟨(Ext.ev s (.deliver _ _ _) trivial).trans ((Ext.of_log_eq (setBuf_log _ _)).trans (Ext.ev _ (.cbExit _ _) trivial)), ?_⟩
       intro _; simp only [St.ev_c]; rw [setBuf_flag]; exact h hf
-    · exact ⟨(Ext.ev s (.deliver _ _) trivial).trans (Ext.ev _ (.cbExit _ _) trivial), fun _ => h hf⟩
+    · exact ⟨(Ext.ev s (.deliver _ _ _) trivial).trans (Ext.ev _ (.cbExit _ _) trivial), fun _ => h hf⟩
 
 theorem cbClose_top (cfg : Cfg) (d : DST) (s : St) (h : s.c.inTracingSection = false) : Top s (cbClose cfg d s) := by
   unfold cbClose
@@ -509,9 +532,21 @@ theorem trace_top (cfg : Cfg) (d : DST) (e : ERT) (args : Args) (s : St) (h : s.
 
 /-- what C16 says about every event of a run: stores under flag 1, flag 0 at every API return -/
 def PTop : Ev → Prop
+  | .cb _ _ _ _ => True
+  | .cbExit _ _ => True
   | .store _ _ f _ => f = true
+  | .deliver _ _ _ => True
+  | .clockRead _ => True
+  | .assertFail => True
+  | .oob => True
   | .ret _ c _ => c.inTracingSection = false
-  | _ => True
+  | .tsWrite _ _ => True
+  | .traceCall _ _ => True
+  | .recDone _ _ _ => True
+  | .discard _ => True
+  | .fullAnswer _ => True
+  | .opened _ => True
+  | .closed _ _ _ => True
 
 theorem PStore.toTop (e : Ev) (h : PStore e) : PTop e := by
   cases e <;> first | exact h | trivial | exact h.elim
@@ -548,6 +583,12 @@ theorem stepOp_top (cfg : Cfg) (d : DST) (op : Op) (s : St) (h : FlagDown s) :
       · exact key "trace" _ (Top.refl hfl)
     | enable b => exact key "enable" _ ⟨Ext.of_log_eq rfl, fun _ => hfl⟩
     | query => exact key "query" _ (Top.refl hfl)
+    | fin =>
+      have hfin : Top s (if (s.c.packetIsOpen && !s.c.isEmpty) = true then cbClose cfg d s else s) := by
+        split
+        · exact cbClose_top cfg d s hfl
+        · exact Top.refl hfl
+      exact key "fin" _ hfin
 
 theorem runOps_top (cfg : Cfg) (d : DST) (ops : List Op) (s : St) (h : FlagDown s) :
     Ext PTop s (runOps cfg d ops s) ∧ FlagDown (runOps cfg d ops s) := by
